@@ -285,6 +285,12 @@ static void run_c19(long cases) {
             if (r.chance(1, 8)) { a = r.pick(std::vector<int>{0, 1, 9, 10, 99, 100, 199, 200, 249, 250, 255}); }
             std::string h = std::to_string(a) + "." + std::to_string(b) + "." + std::to_string(c) + "." + std::to_string(d);
             if (r.chance(1, 2)) c19_expect_ok(h, h, 80, AF_INET, "v4-noport");
+            else if (r.chance(1, 5)) {   // decimal port with leading zeros: still that decimal number
+                int p = r.chance(1, 2) ? r.pick(std::vector<int>{8, 9, 10, 17, 80, 443, 777, 8080}) : r.range(0, 65535);
+                std::string pt = std::string((size_t)r.range(1, 3), '0') + std::to_string(p);
+                if (r.chance(1, 2)) c19_expect_ok(h + ":" + pt, h, p, AF_INET, "port-leading-zeros");
+                else c19_expect_ok("[::1]:" + pt, "::1", p, AF_INET6, "port-leading-zeros");
+            }
             else { int p = r.range(0, 65535); c19_expect_ok(h + ":" + std::to_string(p), h, p, AF_INET, "v4-port"); }
         } else if (kind <= 3) {  // IPv6
             unsigned char b[16];
@@ -317,7 +323,7 @@ static void run_c19(long cases) {
             int w = r.range(0, 7);
             std::string port, cls;
             if (w == 0) { port = ""; cls = "port-empty"; }
-            else if (w == 1) { port = rnd_token(r, 1, 5, "abcxyzGH"); cls = "port-nonnumeric"; }
+            else if (w == 1) { if (r.chance(1, 3)) { port = r.pick(std::vector<std::string>{"0x50", "0X1F90", "0x0", "0xffff", "0b101", "1e3", "+0x10", "0x"}); cls = "port-other-radix"; } else { port = rnd_token(r, 1, 5, "abcxyzGH"); cls = "port-nonnumeric"; } }
             else if (w == 2) { port = "-" + std::to_string(r.range(1, 70000)); cls = "port-negative"; }
             else if (w == 3) { port = std::to_string(65536 + (long)r.below(r.chance(1, 2) ? 10 : 5000000)); cls = "port-above"; }
             else if (w == 4) { port = std::to_string(r.range(0, 65535)) + rnd_token(r, 1, 2, "abx :"); cls = "port-trailing-garbage"; }
@@ -718,7 +724,7 @@ static void c17_jar(Rng& r) {
         pairs.push_back({nmv, v});
     }
     std::string text;
-    for (size_t i = 0; i < pairs.size(); i++) { if (i) text += r.chance(1, 5) ? ";" : "; "; text += pairs[i].first + "=" + pairs[i].second; }
+    for (size_t i = 0; i < pairs.size(); i++) { if (i) { int sp = r.range(0, 9); text += sp <= 1 ? ";" : sp == 2 ? ";  " : sp == 3 ? ";\t" : sp == 4 ? "; \t " : "; "; } text += pairs[i].first + "=" + pairs[i].second; }
     std::set<std::pair<std::string, std::string>> want(pairs.begin(), pairs.end());
     bool repeatedNames = false; { std::set<std::string> s; for (auto& p : want) if (!s.insert(p.first).second) repeatedNames = true; }
     std::string cls = std::string(repeatedNames ? "repeated-names" : "distinct-names") + (want.size() != pairs.size() ? "+repeated-pairs" : "");
@@ -850,12 +856,12 @@ static void c16_typed(Rng& r) {
     case 0: {  // Cache-Control
         static const CacheDirective::Directive TRIV[] = {CacheDirective::NoCache, CacheDirective::NoStore, CacheDirective::NoTransform, CacheDirective::OnlyIfCached, CacheDirective::Public, CacheDirective::Private, CacheDirective::MustRevalidate, CacheDirective::ProxyRevalidate};
         static const CacheDirective::Directive TIMED[] = {CacheDirective::MaxAge, CacheDirective::MaxStale, CacheDirective::MinFresh, CacheDirective::SMaxAge};
-        std::vector<CacheDirective> ds; int n = r.range(1, 4); bool zero = false, timed = false, timedLast = false;
+        std::vector<CacheDirective> ds; int n = r.range(1, 4); bool zero = false, timed = false, timedLast = false, big = false;
         for (int i = 0; i < n; i++) {
             if (r.chance(1, 2)) { ds.emplace_back(r.pick(TRIV)); timedLast = false; }
-            else { static const long long D[] = {0, 1, 59, 600, 2147483647LL}; long long d = r.pick(D); if (r.chance(1, 4)) d = (long long)r.below(100000000); zero |= d == 0; timed = true; timedLast = true; ds.emplace_back(r.pick(TIMED), std::chrono::seconds(d)); }
+            else { static const long long D[] = {0, 1, 59, 600, 2147483647LL, 2147483648LL, 2147483649LL, 4294967295LL, 4294967296LL, 31536000000LL, 4611686018427387904LL, 9223372036854775806LL, 9223372036854775807LL}; long long d = r.pick(D); if (r.chance(1, 4)) d = (long long)r.below(100000000); zero |= d == 0; big |= d > 2147483647LL; timed = true; timedLast = true; ds.emplace_back(r.pick(TIMED), std::chrono::seconds(d)); }
         }
-        std::string cls = zero ? "delta0" : timed ? (timedLast ? "delta-at-end" : "delta") : "trivial";
+        std::string cls = zero ? "delta0" : big ? "delta-above-2^31" : timed ? (timedLast ? "delta-at-end" : "delta") : "trivial";
         c16_rt<CacheControl>("Cache-Control", cls, CacheControl(ds), [](const CacheControl& a, const CacheControl& b, std::string& why) {
             auto x = a.directives(), y = b.directives();
             if (x.size() != y.size()) { why = "directive count " + std::to_string(y.size()) + " want " + std::to_string(x.size()); return false; }
@@ -938,6 +944,11 @@ static void c16_lookup(Rng& r) {
     for (int i = 0; i < n; i++) {
         Hd h;
         if (r.chance(1, 3)) { auto p = registered_header(r); h.name = p.first; h.value = p.second; h.registered = true; }
+        else if (r.chance(1, 6)) {   // headers with a dedicated branch in the header step: the raw copy must exist all the same
+            if (r.chance(1, 2)) { h.name = "Cookie"; h.value = "a" + rnd_token(r, 1, 5, "abcdefghij") + "=" + rnd_token(r, 1, 8, "abcdefghij0123456789") + "; b=2"; }
+            else { h.name = "Set-Cookie"; h.value = "s" + rnd_token(r, 1, 5, "abcdefghij") + "=" + rnd_token(r, 1, 8, "abcdefghij0123456789") + "; Path=/"; }
+            h.registered = false;
+        }
         else {
             h.name = "X-" + rnd_token(r, 1, r.chance(1, 4) ? 70 : 10, "abcdefghijklmnopqrstuvwxyzABCDEFGHIJKLMNOPQRSTUVWXYZ0123456789-_");
             int len = r.range(0, 30);
@@ -951,20 +962,24 @@ static void c16_lookup(Rng& r) {
         if (r.chance(1, 4)) {  // a later occurrence under another capitalisation with another value
             Hd d = h; d.name = rnd_case(r, h.name);
             if (h.registered) { for (int tries = 0; tries < 5; tries++) { auto p = registered_header(r); if (p.first == h.name) { d.value = p.second; break; } } }
+            else if (h.name == "Cookie" || h.name == "Set-Cookie") d.value = "dup=" + rnd_token(r, 1, 6, "abcdefghij");
             else d.value = "dup" + rnd_token(r, 0, 6);
             hs.push_back(d);
         }
     }
-    std::string msg = "GET /x HTTP/1.1\r\n";
+    bool asResponse = r.chance(1, 3);
+    std::string msg = asResponse ? "HTTP/1.1 200 OK\r\n" : "GET /x HTTP/1.1\r\n";
     for (auto& h : hs) msg += (r.chance(1, 3) ? rnd_case(r, h.name) : h.name) + (r.chance(1, 4) ? ":" : ": ") + h.value + "\r\n";
+    if (asResponse) msg += "Content-Length: 0\r\n";
     msg += "\r\n";
-    BEGIN("lookup", "msg", msg);
+    BEGIN("lookup", asResponse ? "response" : "request", msg);
     Rng lr(fnv(msg));   // in-case randomness must not disturb the generator stream (resume after a crash)
     Http::RequestParser parser(1 << 16);
+    Http::ResponseParser rparser(1 << 16);
     Http::Private::State st = Http::Private::State::Again;
-    Thrown t = guarded([&] { parser.feed(msg.data(), msg.size()); st = parser.parse(); });
+    Thrown t = guarded([&] { if (asResponse) { rparser.feed(msg.data(), msg.size()); st = rparser.parse(); } else { parser.feed(msg.data(), msg.size()); st = parser.parse(); } });
     if (t.any || st != Http::Private::State::Done) { viol("c16:lookup:parse", std::string("message with plain headers did not parse: ") + t.what); end_case(); return; }
-    const auto& coll = parser.request.headers();
+    const auto& coll = asResponse ? rparser.response.headers() : parser.request.headers();
     std::map<std::string, const Hd*> first;
     for (auto& h : hs) { std::string l = Http::Header::toLowercase(h.name); if (!first.count(l)) first[l] = &h; }
     for (auto& kv : first) {
